@@ -498,6 +498,10 @@ func (db *MultiBucketBackend) PutObject(
 	input io.Reader, size int64,
 ) (result gofakes3.PutObjectResult, err error) {
 
+	if meta == nil {
+		// "The map containing meta may be nil"; MergeMetadata fills it.
+		meta = make(map[string]string)
+	}
 	err = gofakes3.MergeMetadata(db, bucketName, objectName, meta)
 	if err != nil {
 		return result, err
